@@ -247,6 +247,13 @@ def impl_predicates(pid, op, impl):
             hits.append(("C12", "caller's header maps were modified"))
     if f and f[0] == "enc" and impl.startswith("ok") and "redec=ok" not in impl:
         hits.append(("C08*", "encoder output refused by the corresponding decoder"))
+    if f and f[0] == "reenc" and f[3] == "clear":
+        # C09: after discarding the retained raw bytes the re-encoding is a canonical form:
+        # it decodes, and decoding / re-encoding it again changes nothing
+        parts = impl.split()
+        hexes = [x for x in parts if x not in ("ok", "decerr", "encerr")]
+        if hexes and (parts[-1] in ("decerr", "encerr") or any(h != hexes[0] for h in hexes[1:])):
+            hits.append(("C09", "re-encoding with the raw header bytes discarded is not a fixpoint"))
     if len(f) > 1 and f[-1] == "!wf" and not ("dec=ok" in impl and "ver=ok" in impl):
         hits.append(("C07", "a conforming, correctly signed message was refused"))
     return hits
